@@ -98,6 +98,7 @@ func (r *InboundRequestSingleFlight) GetOrCreate(ctx *Context, response *GraphQL
 	inflight, shared := shard.m.LoadOrStore(key, request)
 	if shared {
 		request = inflight.(*InflightRequest)
+		verifYield("c11.inbound.after_loadorstore")
 		request.AddFollower()
 		select {
 		case <-request.Done:
@@ -124,6 +125,7 @@ func (r *InboundRequestSingleFlight) FinishOk(req *InflightRequest, data []byte)
 		req.Data = make([]byte, len(data))
 		copy(req.Data, data)
 	}
+	verifYield("c11.inbound.finishok.before_close")
 	close(req.Done)
 }
 
